@@ -69,10 +69,16 @@ pub fn set_tier(tier: &str) {
     QUICK.store(tier == "quick", std::sync::atomic::Ordering::Relaxed);
 }
 
-/// Quick tier of the default-feature build: input spaces of more than this many graphs are left to
-/// the thorough tier (the interruptible build enumerates them in both tiers).
-pub const QUICK_SPACE_MAX_GRAPHS: usize = 3000;
+/// The default-feature build leaves the largest input spaces to the interruptible build: more than
+/// 3 000 graphs in the quick tier, more than 1 000 000 (the 7-node space) in the thorough tier.
+pub fn space_max_graphs() -> usize {
+    if QUICK.load(std::sync::atomic::Ordering::Relaxed) {
+        3000
+    } else {
+        1_000_000
+    }
+}
 
 pub fn skip_space_in_this_build(graphs: usize) -> bool {
-    DEFAULT_FEATURES_BUILD && QUICK.load(std::sync::atomic::Ordering::Relaxed) && graphs > QUICK_SPACE_MAX_GRAPHS
+    DEFAULT_FEATURES_BUILD && graphs > space_max_graphs()
 }
